@@ -352,6 +352,8 @@ func NTPContexts6() []Ctx6 {
 
 // V6OutOfRange returns the hand-assembled non-canonical / out-of-range DHCPv6
 // inputs of the C06 statement's quantifier (see Run for the list).
+var v4Mapped = cat(make([]byte, 10), []byte{0xff, 0xff, 192, 0, 2, 33})
+
 func V6OutOfRange() []Named {
 	var out []Named
 	add := func(name string, b []byte) { out = append(out, Named{"v6/" + name, b}) }
@@ -367,7 +369,7 @@ func V6OutOfRange() []Named {
 	addrs := []struct {
 		n string
 		a []byte
-	}{{"A", corpus6.AddrA}, {"zero", corpus6.AddrZero}, {"ones", corpus6.AddrOnes}}
+	}{{"A", corpus6.AddrA}, {"zero", corpus6.AddrZero}, {"ones", corpus6.AddrOnes}, {"v4-mapped", v4Mapped}}
 	for _, x := range []Ctx6{top, inPD, rel, relPD} {
 		for _, ad := range addrs {
 			for _, nested := range [][]byte{nil, status} {
@@ -439,6 +441,22 @@ func V6OutOfRange() []Named {
 			add(fmt.Sprintf("IAADDR/pref=%08x/valid=%08x", a, b), Ctx6{Hdr: Hdr6, Levels: []Level6{lvIANA}}.Wrap(5, cat(corpus6.AddrB, be32(a), be32(b))))
 			add(fmt.Sprintf("IAPREFIX/pref=%08x/valid=%08x", a, b), inPD.Wrap(26, cat(be32(a), be32(b), []byte{64}, corpus6.AddrA)))
 		}
+	}
+	// addresses in special 16-octet forms (hand-assembled: the library's own encoder is not involved), in every
+	// address-bearing position: IAADDR, IAPREFIX, DNS, relay link / peer at two nesting levels
+	for _, ad := range []struct {
+		n string
+		a []byte
+	}{{"v4-mapped", v4Mapped}, {"v4-compatible", cat(make([]byte, 12), []byte{192, 0, 2, 33})}, {"loopback", cat(make([]byte, 15), []byte{1})}, {"multicast", cat([]byte{0xff, 0x02}, make([]byte, 13), []byte{2})}} {
+		add("special-addr/IAADDR/"+ad.n, Ctx6{Hdr: Hdr6, Levels: []Level6{lvIANA}}.Wrap(5, cat(ad.a, be32(30), be32(60))))
+		add("special-addr/IAADDR-top/"+ad.n, top.Wrap(5, cat(ad.a, be32(30), be32(60))))
+		add("special-addr/IAPREFIX/"+ad.n, inPD.Wrap(26, cat(be32(30), be32(60), []byte{96}, ad.a)))
+		add("special-addr/DNS/"+ad.n, top.Wrap(23, cat(ad.a, corpus6.AddrA)))
+		inner := cat(Hdr6, TLV6(8, []byte{0, 1}))
+		lvl1 := cat([]byte{12, 0}, ad.a, corpus6.AddrB, TLV6(9, inner))
+		add("special-addr/relay-link/"+ad.n, lvl1)
+		add("special-addr/relay-peer/"+ad.n, cat([]byte{12, 0}, corpus6.AddrA, ad.a, TLV6(9, inner)))
+		add("special-addr/relay-nested/"+ad.n, cat([]byte{12, 1}, corpus6.AddrA, corpus6.AddrB, TLV6(9, lvl1)))
 	}
 	// relay header: every hop count; both relay types; every message type with a 4- and a 34-octet header
 	for h := 0; h < 256; h++ {
